@@ -118,7 +118,7 @@ package encoding
 //@   uses bitsval_def bitsval_fits
 //@   apply window_holds_delta(val ^ e.previousVal, e.leading, e.trailing)
 //@   apply own_window_holds_delta(val ^ e.previousVal)
-//@   timeout 300
+//@   timeout 900
 //@   requires xeOK(e)
 //@   modifies e.err, e.first, e.previousVal, e.leading, e.trailing, e.bw.b, e.bw.count, e.bw.w.out, e.bw.w.n
 //@   ensures[first_control_bit_says_whether_the_value_changed] !old(e.first) ==> (bit.sbit(bit.wdata(e.bw), old(bit.wlen(e.bw))) == ((val ^ old(e.previousVal)) != 0))
@@ -140,7 +140,7 @@ package encoding
 //@ func XORDecoder.Next
 //@   prop C14
 //@   paths
-//@   timeout 120
+//@   timeout 360
 //@   opaque tok bitsval
 //@   uses bitsval_def bitsval_fits
 //@   requires xdOK(d)
